@@ -863,7 +863,70 @@ def run_subrace(ctx, rng, job):
         ctx.shape(('subrace', flavour, nthreads), nontrivial=True)
 
 
+def parked_rebase(ctx):
+    """A scheduled interleaving instead of a likely one: a lookup thread on a verifying registry is parked inside the
+    computation of the registry's resolution order (it has read the old bases) while another thread re-bases the
+    registry; when both are done the registry must resolve along the new chain."""
+    from zope.interface import adapter as zadapter
+    if not hasattr(zadapter, 'ro') or not hasattr(zadapter.ro, 'ro'):
+        return
+    V = VerifyingAdapterRegistry
+    mod = util.fresh_module()
+    IR, IP = util.mkiface('IR', module=mod), util.mkiface('IP', module=mod)
+    for park_at in ('after-computing', 'before-computing'):
+        top = V()
+        reg, alt = V((top,)), V((top,))
+        sub = V((alt,))
+        alt.register([IR], IP, 'alt', 'ALT')
+        reg.register([IR], IP, 'reg', 'REG')
+        if sub.lookup([IR], IP, 'alt') != 'ALT':
+            continue
+        orig = zadapter.ro.ro
+        computed, go = threading.Event(), threading.Event()
+        armed = [True]
+
+        def slow_ro(C, *a, **k):
+            me = threading.current_thread().name == 'zmon-parked' and armed[0]
+            if me and park_at == 'before-computing':
+                armed[0] = False
+                computed.set()
+                go.wait(20)
+            r = orig(C, *a, **k)
+            if me and park_at == 'after-computing':
+                armed[0] = False
+                computed.set()
+                go.wait(20)
+            return r
+        zadapter.ro.ro = slow_ro
+        out = []
+        try:
+            alt.register([IR], IP, 'other', 'x')     # a generation above sub changes: its next lookup re-verifies
+            t = threading.Thread(target=lambda: out.append(sub.lookup([IR], IP, 'alt')), name='zmon-parked')
+            t.start()
+            reached = computed.wait(20)
+            mt = threading.Thread(target=lambda: setattr(sub, '__bases__', (reg,)))
+            mt.start()
+            mt.join(2)             # (a repaired library may make the mutator wait for the parked thread)
+            go.set()
+            t.join(20)
+            mt.join(20)
+        finally:
+            zadapter.ro.ro = orig
+        ctx.ev()
+        ctx.count('parked_rebase_schedules')
+        if not reached:
+            ctx.count('parked_rebase_not_reached')
+            continue
+        got_alt, got_reg = sub.lookup([IR], IP, 'alt'), sub.lookup([IR], IP, 'reg')
+        if got_alt is not None or got_reg != 'REG' or list(sub.ro) != [sub, reg, top]:
+            ctx.violation('stale-resolution-order-after-parked-rebase',
+                          {'parked': park_at, 'interrupted_lookup': repr(out), 'alt_answer': repr(got_alt), 'reg_answer': repr(got_reg),
+                           'ro_is_new_chain': list(sub.ro) == [sub, reg, top]}, abort=False)
+
+
 def run_mutrace(ctx, rng, job):
+    if ctx.case == 0:
+        parked_rebase(ctx)
     """Mutation-window race.  One mutator performs registrations / subscriptions under *fresh* provided interfaces
     (first registration of that interface in the registry: the extendor and reference-count bookkeeping runs) and
     removes them again, in different members of a chain, with statement-level preemption injected inside the
